@@ -494,11 +494,12 @@ fn shipped_store_registrations(rep: &mut Report, args: &Args, only: Option<u64>)
                 seeded_passkey(&mut rng, rp, &[0xD0 + j as u8; 24], Some(b"user-x"), Some(5), None).0
             })
             .collect();
-        let kind = rng.below(6);
+        let kind = rng.below(10);
         let regs = rng.range(1, 3);
         let rk = rng.bool();
         let counters = rng.bool();
-        let names = ["Option<Passkey>", "Arc<Mutex<Option<Passkey>>>", "Arc<RwLock<Option<Passkey>>>", "MemoryStore", "Arc<Mutex<MemoryStore>>", "Arc<RwLock<MemoryStore>>"];
+        let names = ["Option<Passkey>", "Arc<Mutex<Option<Passkey>>>", "Arc<RwLock<Option<Passkey>>>", "MemoryStore", "Arc<Mutex<MemoryStore>>", "Arc<RwLock<MemoryStore>>",
+            "Arc<Mutex<reference store>>", "Arc<RwLock<reference store>>", "Mutex<reference store>", "RwLock<reference store>"];
         let case = json!({"index": index, "store": names[kind], "credentials_before": existing.iter().map(|p| json!({"id": hex_short(&p.credential_id), "rp": p.rp_id})).collect::<Vec<_>>(), "registrations": regs, "rk": rk, "counters": counters});
         rep.eval();
         rep.nontrivial(fnv_str(&format!("shipped|{kind}|{occupied}|{regs}|{rk}")));
@@ -571,6 +572,41 @@ fn shipped_store_registrations(rep: &mut Report, args: &Args, only: Option<u64>)
                 }
             }
             4 => drive!(Arc::new(tokio::sync::Mutex::new(mem)), |s: &Arc<tokio::sync::Mutex<MemoryStore>>| s.try_lock().map(|g| g.values().map(|p| p.credential_id.to_vec()).collect::<Vec<_>>()).unwrap_or_default()),
+            6..=9 => {
+                // the library's four lock wrappers around the reference store (for which saving and
+                // updating are different things)
+                let rec = crate::collab::RecStore::new(crate::collab::Log::new(), Disc::Full);
+                for p in &existing {
+                    rec.insert_raw(p.clone());
+                }
+                let h = rec.clone();
+                let held = move || -> Vec<Vec<u8>> { h.passkeys().iter().map(|p| p.credential_id.to_vec()).collect() };
+                macro_rules! through {
+                    ($wrapped:expr) => {{
+                        let mut auth = mk_auth($wrapped, uv.clone(), cfg);
+                        for r in 0..regs {
+                            let req = mc_request(RP, format!("user-{r}").as_bytes(), &[1u8; 32], vec![pk_param(coset::iana::Algorithm::ES256)], None, None, rk, true, true);
+                            match catch(|| block_on(auth.make_credential(req))) {
+                                Err((sig, d)) => rep.violate(&format!("shipped store: registration {sig}"), d, case.clone()),
+                                Ok(Err(_)) => rep.count("shipped_reg_failed"),
+                                Ok(Ok(resp)) => {
+                                    rep.count("shipped_reg_ok");
+                                    let id = authdata::decode(&resp.auth_data.to_vec()).ok().and_then(|d| d.attested.map(|a| a.cred_id)).unwrap_or_default();
+                                    if !held().contains(&id) {
+                                        rep.violate("shipped store: registration succeeded although the store does not hold the new credential", format!("{} after registration {r}: new id {}", names[kind], hex_short(&id)), case.clone());
+                                    }
+                                }
+                            }
+                        }
+                    }};
+                }
+                match kind {
+                    6 => through!(Arc::new(tokio::sync::Mutex::new(rec))),
+                    7 => through!(Arc::new(tokio::sync::RwLock::new(rec))),
+                    8 => through!(tokio::sync::Mutex::new(rec)),
+                    _ => through!(tokio::sync::RwLock::new(rec)),
+                }
+            }
             _ => drive!(Arc::new(tokio::sync::RwLock::new(mem)), |s: &Arc<tokio::sync::RwLock<MemoryStore>>| s.try_read().map(|g| g.values().map(|p| p.credential_id.to_vec()).collect::<Vec<_>>()).unwrap_or_default()),
         }
     }
@@ -631,6 +667,46 @@ fn u2f_registrations(rep: &mut Report, args: &Args, only: Option<u64>) {
                 (r, before, after)
             }
         };
+        // shipped stores: the same key handle registered once more (the caller chooses the handle): whatever
+        // the answer, an error leaves the store as it was
+        if kind != 0 && rng.bool() {
+            let req2 = RegisterRequest { challenge: rng.arr32(), application: rng.arr32() };
+            let uv = crate::collab::RecUv::ok(crate::collab::Log::new());
+            let key_of = |p: &Passkey| {
+                use coset::CborSerializable;
+                p.key.clone().to_vec().unwrap_or_default()
+            };
+            let (r2, changed): (Result<Result<(), String>, (String, String)>, bool) = if kind == 1 {
+                let mut m = MemoryStore::new();
+                m.insert(existing.credential_id.to_vec(), existing.clone());
+                let mut auth = mk_auth(m, uv, AuthCfg::default());
+                let _ = block_on(auth.register(RegisterRequest { challenge: [1; 32], application: [2; 32] }, &handle));
+                let before: Vec<(Vec<u8>, Vec<u8>)> = auth.store().iter().map(|(k, p)| (k.clone(), key_of(p))).collect();
+                let r = catch(|| block_on(auth.register(req2, &handle)).map(|_| ()).map_err(|e| format!("{e:?}")));
+                let mut after: Vec<(Vec<u8>, Vec<u8>)> = auth.store().iter().map(|(k, p)| (k.clone(), key_of(p))).collect();
+                let mut b = before;
+                b.sort();
+                after.sort();
+                (r, b != after)
+            } else {
+                let mut auth = mk_auth(Some(existing.clone()), uv, AuthCfg::default());
+                let _ = block_on(auth.register(RegisterRequest { challenge: [1; 32], application: [2; 32] }, &handle));
+                let before: Vec<(Vec<u8>, Vec<u8>)> = auth.store().iter().map(|p| (p.credential_id.to_vec(), key_of(p))).collect();
+                let r = catch(|| block_on(auth.register(req2, &handle)).map(|_| ()).map_err(|e| format!("{e:?}")));
+                let after: Vec<(Vec<u8>, Vec<u8>)> = auth.store().iter().map(|p| (p.credential_id.to_vec(), key_of(p))).collect();
+                (r, before != after)
+            };
+            match r2 {
+                Err((sig, d)) => rep.violate(&format!("u2f registration {sig}"), d, case.clone()),
+                Ok(Err(e)) => {
+                    rep.count("u2f_second_registration_refused");
+                    if changed {
+                        rep.violate("u2f: failed registration changed the store", format!("second registration of the same key handle on {}: {e}", names[kind]), case.clone());
+                    }
+                }
+                Ok(Ok(())) => rep.count("u2f_second_registration_ok"),
+            }
+        }
         match result {
             Err((sig, d)) => rep.violate(&format!("u2f registration {sig}"), d, case),
             Ok(Err(e)) => {
